@@ -45,14 +45,42 @@ def _pin_value(seed, name, pos=False, nonzero=False, lo=None, hi=None, integer=F
     raise ValueError(f"no pin for {name}")
 
 
+class WarmAbort(core.ControlFlow):
+    """an assumption of a warm-up case does not hold for its pinned numerals: the warm-up stops there (deterministically,
+    in the symbolic run and in the replay alike) and the case proper starts"""
+
+
+class _Warmup:
+    def __init__(self, ctx, tag):
+        self.ctx, self.tag = ctx, tag
+
+    def __enter__(self):
+        self.prev = self.ctx._warm
+        self.ctx._warm = self.tag
+        return self
+
+    def __exit__(self, *exc):
+        self.ctx._warm = self.prev
+        return False
+
+
 class BaseCtx:
     symbolic = False
     pinned = False
+    WarmAbort = WarmAbort
+    _warm = None  # tag of the warm-up in flight (symx.warm): symbols are pinned numerals, obligations and observations are muted
 
     def __init__(self):
         self.observations = []
         self.failed = []
         self.req_log = []
+
+    def warmup(self, tag):
+        return _Warmup(self, tag)
+
+    @property
+    def warming(self):
+        return self._warm is not None
 
     # registry helpers shared by all modes ---------------------------------------------
     def registry(self, rows, defaults=True, unit_system=None):
@@ -84,6 +112,8 @@ class BaseCtx:
         return uq(value, unit, registry=reg)
 
     def observe(self, label, value):
+        if self._warm is not None:
+            return
         self.observations.append((label, value))
 
     def note(self, **kw):
@@ -100,7 +130,7 @@ class SymCtx(BaseCtx):
         self.stats = stats
         self.case_id = case_id
         self.pins = pins
-        self.pinned = pins is not None
+        self._pinned = pins is not None
         self.seed = seed
         self.symbols = {}
         self.oblig_timeout_ms = oblig_timeout_ms
@@ -110,13 +140,20 @@ class SymCtx(BaseCtx):
         self.pending = []
         self.zsyms = {}
 
+    @property
+    def pinned(self):
+        # inside a warm-up (symx.warm) the symbols are numerals: harness code that asks "are my symbols free?" gets the pinned answer
+        return self._pinned or self._warm is not None
+
     def zconst(self, name, sort, default=None):
         """a symbol of a non-real z3 sort (Int, String, BitVec ...) for stand-alone solver queries inside a harness.
         Symbolic mode: the raw z3 constant (build formulas with z3 and wrap them in SymBool for require()).
         Pinned mode: the z3 value of `default`. Concrete mode (replay): the python int/str from the model, else `default`."""
+        if self._warm is not None:
+            name = self._warm + name
         if name in self.zsyms:
             return self.zsyms[name]
-        if self.pinned:
+        if self.pinned or self._warm is not None:
             if sort == z3.IntSort():
                 c = z3.IntVal(default)
             elif sort == z3.StringSort():
@@ -131,6 +168,11 @@ class SymCtx(BaseCtx):
         return c
 
     def real(self, name, pos=False, nonzero=False, lo=None, hi=None, integer=False):
+        if self._warm is not None:
+            name = self._warm + name
+            if name not in self.symbols:
+                self.symbols[name] = (SymReal(rv(_pin_value("warm", name, pos, nonzero, lo, hi, integer))), dict(pos=pos))
+            return self.symbols[name][0]
         if name in self.symbols:
             return self.symbols[name][0]
         if self.pinned:
@@ -174,6 +216,14 @@ class SymCtx(BaseCtx):
         return o
 
     def assume(self, cond):
+        if self._warm is not None:
+            if isinstance(cond, SymBool):
+                t = z3.simplify(cond.t)
+                if z3.is_false(t):
+                    raise WarmAbort()
+            elif not cond:
+                raise WarmAbort()
+            return
         if isinstance(cond, SymBool):
             self.ex.assume(cond.t)
         elif not cond:
@@ -181,6 +231,8 @@ class SymCtx(BaseCtx):
 
     # ------------------------------------------------------------------ obligations
     def require(self, label, cond, **info):
+        if self._warm is not None:
+            return True
         st = self.stats
         st["requires"] += 1
         self.path_obligs += 1
@@ -373,6 +425,11 @@ class ConcreteCtx(BaseCtx):
         self.notes = {}
 
     def real(self, name, pos=False, nonzero=False, lo=None, hi=None, integer=False):
+        if self._warm is not None:
+            name = self._warm + name
+            if name not in self.symbols:
+                self.symbols[name] = float(_pin_value("warm", name, pos, nonzero, lo, hi, integer))
+            return self.symbols[name]
         if name in self.symbols:
             return self.symbols[name]
         if self.model is not None:
@@ -386,6 +443,8 @@ class ConcreteCtx(BaseCtx):
         return v
 
     def zconst(self, name, sort, default=None):
+        if self._warm is not None:
+            return default
         v = (self.model or {}).get(name)
         if v is None:
             return default
@@ -409,10 +468,16 @@ class ConcreteCtx(BaseCtx):
         return np.asarray(values, dtype=float)
 
     def assume(self, cond):
+        if self._warm is not None:
+            if not cond:
+                raise WarmAbort()
+            return
         if not cond:
             raise AssumptionFailed()
 
     def require(self, label, cond, **info):
+        if self._warm is not None:
+            return True
         info.pop("to_solver", None)
         ok = bool(cond)
         self.req_log.append((label, ok))
